@@ -62,6 +62,8 @@ func startSess() (*sessClient, error) {
 }
 
 // sessRun runs one spec; a session that does not answer within 10 s is killed (Hang).
+var sessHangs int
+
 func sessRun(sp sess.Spec) sess.Trace {
 	if theSess == nil {
 		c, err := startSess()
@@ -93,10 +95,22 @@ func sessRun(sp sess.Spec) sess.Trace {
 		if err := json.Unmarshal(r.line, &tr); err != nil {
 			return sess.Trace{ID: sp.ID, Error: "bad trace: " + err.Error()}
 		}
+		if tr.Hang {
+			sessHangs++
+			if sessHangs >= 6 {
+				abortGen = true
+			}
+		}
 		return tr
 	case <-time.After(10 * time.Second):
 		theSess.stop()
 		theSess = nil
+		// a tree on which session after session hangs: a handful of them is enough to report, the rest of the
+		// budget would only burn the watchdog
+		sessHangs++
+		if sessHangs >= 6 {
+			abortGen = true
+		}
 		return sess.Trace{ID: sp.ID, Hang: true}
 	}
 }
